@@ -501,6 +501,22 @@ func suiteGen(h *H) {
 			}
 		}
 	}
+	// (2c) a device node that already has every wanted attribute except the device number (the source node was re-created
+	// with another major/minor): the node that replaces it gets the wanted permissions (beyond the umask), owner and time too
+	if root {
+		for _, ek := range []byte("cb") {
+			for _, perm := range []int{0o666, 0o660, 0o640} {
+				for _, own := range [][2]int{{euid, egid}, {1000, 65534}} {
+					for _, opts := range []string{"ptogDS", "pDS", "tDS", "ogDS", "ptogD"} {
+						e := gEntry{kind: ek, perm: perm, mtime: oldT, uid: own[0], gid: own[1], rdev: 0x0103}
+						d := gNode{present: true, kind: ek, perm: perm, mtime: oldT, uid: own[0], gid: own[1], rdev: 0x0105}
+						run("gen", opts, 0o22, e, d, 0, 0)
+						h.stat("gen.renumbered-device")
+					}
+				}
+			}
+		}
+	}
 	// (3) all 512 permission values on regular files and directories (C11), -p on and off
 	if h.thorough() {
 		for perm := 0; perm < 512; perm++ {
